@@ -599,6 +599,13 @@ func listPageInner(ctx context.Context, tx *bolt.Tx, prefix string, after string
 		// skipping all results.
 		seekPrefix = prefixBytes
 	}
+	if after != "" {
+		// filepath.Join also cleans the joined path ("./b" becomes "b"),
+		// which can move the seek position past entries that sort after
+		// the given value. The plain concatenation is never greater than
+		// any key whose entry sorts after it.
+		seekPrefix = []byte(prefix + after)
+	}
 
 	// Assume bucket exists and has keys
 	c := tx.Bucket(dataBucketName).Cursor()
